@@ -10,6 +10,9 @@ R4 deferral and the reload decision table (T-cmp 24); reload_needed is cleared o
 R5 handle generation typestate: a handle declares itself current (stores its fs_last) only in
    state Current (merger rebuilt, or known equal to the shared generation and nothing changed).
 R6 filter formula of fs_reinit_merger; merger rebuilt from the handle's options.
+R8 the generation stamp stored in fs_last is read from a clock that is not one of the platform's
+   coarse clocks (handles compare stamps for equality).
+R9 closure pairing (rules/closures.py): the fileset's filters, merge and dupsort functions are called and forwarded with their own closures.
 """
 import re
 from .common import *
@@ -282,3 +285,55 @@ def run(ctx, res):
     mi = ri.calls("mtbl_merger_init")
     res.check(len(mi) == 1 and canon(call_args(mi[0])[0]).endswith("->mopt"), "C07.R6", site(ri, "merger-from-mopt"),
               "the merger is rebuilt from the handle's own options", "merger rebuilt from other options")
+
+    # ---- R8 the generation stamp distinguishes successive reloads ---------------------------------
+    # handles compare (tv_sec, tv_nsec) of fs_last for equality to learn that another handle reloaded; a clock
+    # whose value stays the same for milliseconds gives two reloads the same stamp.
+    res.floor("C07.R8", 2)
+    coarse = _coarse_clock_ids(prog)
+    for g in (reload_, now_):
+        stamps = [n for n, lhs in field_stores(g) if lhs["field"] == "fs_last" and "shared_fs" in canon(lhs)]
+        gts = g.calls("my_gettime")
+        if not stamps:
+            continue
+        if not gts:
+            res.bad("C07.R8", site(g, "stamp-clock"), "the generation stamp is no longer read from my_gettime", g.loc(stamps[0]))
+            continue
+        for c in gts:
+            v = const_val(call_args(c)[0])
+            names = [k for k, x in coarse.items() if x == v]
+            res.check(v is not None and not names, "C07.R8", site(g, "stamp-clock"),
+                      "the generation stamp comes from clock id %s, which is not a coarse clock" % v,
+                      "the generation stamp comes from %s: two reloads within one tick (milliseconds) get the same stamp and a second handle "
+                      "never notices the first one's reload" % (names[0] if names else "a clock id that is not a constant"), g.loc(c))
+    mg = prog.func("my_gettime", U)
+    if mg is not None:
+        inner = mg.calls("clock_gettime")
+        if inner:
+            a0 = strip(call_args(inner[0])[0])
+            res.check(a0["k"] == "DeclRefExpr" and a0.get("dk") == "param" and a0["idx"] == 0, "C07.R8", site(mg, "forwards-clock"),
+                      "my_gettime passes its clock id on to clock_gettime", "my_gettime ignores the clock id it is given", mg.loc(inner[0]))
+
+
+    # ---- closure pairing ----------------------------------------------------------------------
+    from . import closures
+    res.floor("C07.R9", 1)
+    closures.check(ctx, res, "C07.R9", ('mtbl_fileset_options',))
+
+_COARSE = {}
+
+
+def _coarse_clock_ids(prog):
+    """Values of the coarse clock ids on the configured platform, from the preprocessor."""
+    import subprocess
+    if _COARSE:
+        return _COARSE
+    p = subprocess.run(["clang", "-dM", "-E", "-include", "time.h", "-x", "c", "/dev/null", "-D_GNU_SOURCE"],
+                       capture_output=True, text=True)
+    for line in p.stdout.splitlines():
+        m = re.match(r"#define (CLOCK_\w*COARSE) (\d+)$", line)
+        if m:
+            _COARSE[m.group(1)] = int(m.group(2))
+    if not _COARSE:
+        raise BrokenAnalysis("cannot read the coarse clock ids from <time.h>")
+    return _COARSE
